@@ -961,7 +961,12 @@ def remap_by_types(
                 if found_type is not None:
                     t_node = self.process_method_call(t_node, found_type)
             elif isinstance(t_node.func, ast.Name):
-                if t_node.func.id in _global_functions:
+                # (a variable in scope - a parameter of the lambda - that carries the name of a
+                # registered function is the variable, as it is for `visit_Name`)
+                if (
+                    t_node.func.id not in self._found_types
+                    and t_node.func.id in _global_functions
+                ):
                     t_node = self.process_function_call(t_node, _global_functions[t_node.func.id])
             elif isinstance(t_node.func, ast.Subscript):
                 if isinstance(t_node.func.value, ast.Attribute):
